@@ -901,7 +901,7 @@ func execC20Child(o Op) string {
 		// leave a spinning barrier together): one gets it, the others build their own - nobody waits
 		env := c20NewEnv()
 		cred := c20Credential(env)
-		rounds := 150 * iters
+		rounds := 40 * iters
 	burst:
 		for r := 0; r < rounds; r++ {
 			if err := cred.NonrevPrepareCache(); err != nil {
